@@ -358,13 +358,18 @@ class Oracle:
         raw = None
         if req and uri:
             why.append("request-and-request_uri-both-given")
+            raw = req  # (what follows is judged on the object given by value)
         elif req:
             raw = req
         elif uri:
-            table = op.get("get") if meth in ("", "get") else op.get("post") if meth == "post" else None
-            if table is None:
+            table = []
+            if meth in ("", "get"):
+                table = op.get("get") or []
+            elif meth == "post":
+                table = op.get("post") or []
+            else:
                 why.append("unsupported-request_uri_method")
-            for e in table or []:
+            for e in table:
                 if e["in"] == uri:
                     raw = e.get("out") if e.get("ok") else None
                     break
